@@ -174,7 +174,23 @@ Fixpoint xrun (xl : list xs) (evs : list dtev) (i : Z) : option Z * list xs :=
 
 Inductive dcase :=
 | CDisk (evs : list dtev)
-| CRet (times : list Z) (epochs : list Z) (n : Z) (protected : list Z).   (* reserved: retention arithmetic *)
+| CRet (times : list Z) (epochs : list Z) (n : Z) (protected : list Z)   (* reserved: retention arithmetic *)
+| CPrefix (ops : list (list (Z * option Z)))                               (* batches in submission order (raw ops) *)
+          (copies : list (nat * nat * list (Z * option Z)))               (* per online copy: batches returned before it began, submitted when it ended, contents of the destination *)
+          (final : list (Z * option Z)).                                  (* contents after close and reopen *)
+
+(* spec-level judgement for indexes the trace model cannot follow from its initial state (an index
+   made by the offline Builder): every online copy holds the replay of a whole-batch prefix that is
+   no older than what had been returned when the copy began, and the source ends up with everything *)
+Definition docs_are_prefix (bs : list batch) (k : nat) (docs : list (Z * option Z)) : bool :=
+  list_eqb pairZoZ_eqb (map (fun p => (fst p, replay (firstn k bs) (fst p))) docs) docs.
+
+Definition check_prefix (ops : list (list (Z * option Z))) (copies : list (nat * nat * list (Z * option Z)))
+                        (final : list (Z * option Z)) : bool :=
+  let bs := map collapse ops in
+  forallb (fun c => let '(lo, hi, docs) := c in
+                    existsb (fun k => docs_are_prefix bs k docs) (seq lo (S (hi - lo)))) copies
+  && docs_are_prefix bs (length bs) final.
 
 Definition xinit : xs := mkXs dinit [] [] false None [].
 
@@ -186,6 +202,7 @@ Definition dcheck (c : dcase) : bool :=
       | (Some _, _) => false
       end
   | CRet _ _ _ _ => true
+  | CPrefix ops copies final => check_prefix ops copies final
   end.
 
 Inductive dexpl :=
@@ -201,4 +218,9 @@ Definition dexplain (c : dcase) : dexpl :=
       EDisk r (project (root (d_core d))) (map br_epoch (d_bolt d)) (d_files d)
             (option_map br_epoch (d_tx d)) (covered d) (d_acked d) (length (x_eff x))
   | CRet _ _ _ _ => EDisk None [] [] [] None 0%nat [] 0%nat
+  | CPrefix ops copies _ =>
+      EDisk None [] [] [] None (length ops)
+            (map (fun c => let '(lo, hi, docs) := c in
+                           if existsb (fun k => docs_are_prefix (map collapse ops) k docs) (seq lo (S (hi - lo))) then 1%nat else 0%nat) copies)
+            0%nat
   end.
